@@ -270,7 +270,7 @@ def t_random(seed, n):
         rng = rng_for(s)
         stats.case()
         text = gen_text(rng, doc)
-        ctx = CTX if "_" in text else None
+        ctx = rng.choice([CTX, CTX, CTX, {}, None]) if "_" in text else None
         variant = rng.choice(["plain", "plain", "wrapped"])
         want = judge(stats, loop, text, doc, ctx, variant, rng)
         stats.cls("variant:" + variant)
@@ -320,6 +320,34 @@ def t_matrix():
     finally:
         loop.close()
     stats.subspaces.append({"name": "selector kind (12) x value kind (6) x 4 placements x {plain, async-getter}", "size": n, "exhaustive": True})
+    return stats
+
+
+# ------------------------------------------------------------------ the filter context identifier, bare and rooted, under every kind of context
+
+CTX_TEMPLATES = ["[?_]", "[?!_]", "[?@ == _]", "[?_ == @]", "[?count(_) == 1]", "[?length(_) == 0]", "[?length(_) > 0]", "[?_.a]", "[?!_.a]",
+                 "[?_.a == 1]", "[?_.*]", "[?_..a]", "[?_[*] == 1]", "[?@ in _]", "[?_ contains 'a']", "[?value(_) == 1]", "[?count(_.*) == 0]",
+                 "[?_ && @]", "[?_ || @ == 1]", "[?_.o.a == @]", "[?@[?_]]", "[?@[?_.a == 1]]", "[?_ == _]", "[?_ != @]"]
+CTX_VALUES = [None, {}, {"a": 1}, {"a": None}, {"a": []}, CTX]
+
+
+def t_context():
+    stats = Stats()
+    loop = asyncio.new_event_loop()
+    rng = random.Random(9)
+    n = 0
+    docs = [[1, {}, [], "a", None, {"a": 1}, [1]], {"x": {}, "y": 1, "z": {"a": 1}}]
+    try:
+        for tpl, ctx, doc in itertools.product(CTX_TEMPLATES, CTX_VALUES, docs):
+            for text in ("$" + tpl, "$.." + tpl):
+                for variant in ("plain", "wrapped"):
+                    judge(stats, loop, text, doc, ctx, variant, rng)
+                    n += 1
+            stats.nt("context", tpl, canon(ctx))
+    finally:
+        loop.close()
+    stats.subspaces.append({"name": "24 uses of the filter-context identifier (bare, rooted, nested, as function argument) x 6 contexts "
+                                    "(none, empty, ...) x 2 documents x {child, descendant} x {plain, async-getter}", "size": n, "exhaustive": True})
     return stats
 
 
@@ -492,7 +520,7 @@ def t_errors():
 
 
 def tasks(tier, seed):
-    ts = [{"name": "matrix", "fn": "t_matrix"}, {"name": "errors", "fn": "t_errors"}]
+    ts = [{"name": "matrix", "fn": "t_matrix"}, {"name": "context", "fn": "t_context"}, {"name": "errors", "fn": "t_errors"}]
     for k in range(4):
         ts.append({"name": "shared-%d" % k, "fn": "t_shared", "kw": {"seed": mix(seed, ID, "s", k), "n": 500 if tier == "quick" else 8000}})
     n = 1200 if tier == "quick" else 20000
